@@ -10,7 +10,9 @@ use fancy_regex::{Captures, NoExpand, Regex};
 use serde_json::json;
 use std::borrow::Cow;
 
-const TEMPLATES: [&str; 5] = ["$0", "[$1]", "${g1}", "$$", "$2-$1"];
+// the last three: non-ASCII text in front of / behind a `$` (identifiers are Unicode: `$1é` names a
+// group "1é"), a `$` at the very end
+const TEMPLATES: [&str; 8] = ["$0", "[$1]", "${g1}", "$$", "$2-$1", "$é", "é$1", "$1é$"];
 
 fn model(t: &str, caps: &[Captures<'_>], n: usize, out_for: &mut dyn FnMut(&Captures<'_>) -> String) -> String {
     let k = if n == 0 { caps.len() } else { n.min(caps.len()) };
@@ -211,8 +213,10 @@ pub fn run(ctx: &Ctx) -> Outcome {
     let sp = spaces::c01_space(ctx.tier, ctx.seed ^ 11, false, 3, 4, 2, 2, 1_500, 20_000);
     let mut patterns = sp.patterns;
     let small: Vec<_> = patterns.iter().filter(|p| p.size() <= 3).cloned().collect();
+    // quick: a seeded third of the \G / \K variants (every context keeps dozens of fillers)
     let gk = gen::g_contexts(&small);
-    patterns.extend(gk);
+    let (tier, seed) = (ctx.tier, ctx.seed as usize);
+    patterns.extend(gk.into_iter().enumerate().filter(|(i, _)| tier == Tier::Thorough || (i / 15 + seed) % 3 == 0).map(|(_, p)| p));
     let texts = spaces::texts_c01(3);
     let named = Style { group: GroupStyle::Angle, backref: RefStyle::KAngle, ..Style::default() };
     let acc = par_run(&patterns, false, Some(3_000_000), |i, p, acc| {
@@ -298,7 +302,7 @@ pub fn run(ctx: &Ctx) -> Outcome {
     });
     let mut out = Outcome::new(acc);
     out.distinct_nontrivial = out.acc.distinct;
-    out.rule = format!("{} + \\G/\\K variants of the small trees, every second pattern spelled with named groups; x all {} texts over {{a,b,c,é,\\n,-}} up to length 3 (patterns of more than 3 nodes: a rotating half of them) x limits 0..3 x replacers {{\"<>\" as &str / String / NoExpand / closure, identity closure, NoExpand(\"$1\"), templates $0 [$1] ${{g1}} $$ $2-$1}}: result = text with the first n captures_iter matches replaced by the replacer's own output (Captures::expand for templates), other bytes untouched; Cow::Borrowed iff no match; the three spellings of a constant agree (fast path vs captures path); replacers with state (counting closure, recording closure, hand-written Replacer through by_ref): the i-th replaced match gets the i-th call's output and the calls see the matches in text order; for patterns with reference semantics and groups the output of \"[$1|$2]\" as template and as closure must show the groups of the reference matcher's path for every match; under backtrack limits 0 and 2 (every third pattern) a search error among the matches to be replaced must come back as Err, and the calls return, never panic. Non-trivial: distinct patterns where >= 1 but not all matches were replaced, or an empty match was replaced.", sp.describe, texts.len());
+    out.rule = format!("{} + \\G/\\K variants of the small trees, every second pattern spelled with named groups; x all {} texts over {{a,b,c,é,\\n,-}} up to length 3 (patterns of more than 3 nodes: a rotating half of them) x limits 0..3 x replacers {{\"<>\" as &str / String / NoExpand / closure, identity closure, NoExpand(\"$1\"), templates $0 [$1] ${{g1}} $$ $2-$1 $é é$1 $1é$}}: result = text with the first n captures_iter matches replaced by the replacer's own output (Captures::expand for templates), other bytes untouched; Cow::Borrowed iff no match; the three spellings of a constant agree (fast path vs captures path); replacers with state (counting closure, recording closure, hand-written Replacer through by_ref): the i-th replaced match gets the i-th call's output and the calls see the matches in text order; for patterns with reference semantics and groups the output of \"[$1|$2]\" as template and as closure must show the groups of the reference matcher's path for every match; under backtrack limits 0 and 2 (every third pattern) a search error among the matches to be replaced must come back as Err, and the calls return, never panic. Non-trivial: distinct patterns where >= 1 but not all matches were replaced, or an empty match was replaced.", sp.describe, texts.len());
     out.assumptions = vec!["template expansion itself is judged by C12; find_iter by C08".into()];
     let eh = out.acc.get("error-histories");
     out.extra = json!({"error_histories": eh});
